@@ -3,6 +3,7 @@
 //!   vh-core record <machine> --cfg <id> --seed S --n N --out FILE   real executions -> ndjson trace
 mod bigint;
 mod cfgs;
+pub mod curve;
 mod elem;
 mod field;
 pub mod gen_toy;
@@ -36,6 +37,14 @@ macro_rules! with_limbs {
                    other => panic!("unsupported limb count {}", other) }
     };
 }
+fn replay_curve<D: curve::CurveDrv>(big: bool) -> util::Report {
+    let stdin = std::io::stdin();
+    curve::replay::<D>(util::tlc_transitions(BufReader::new(stdin.lock())), big)
+}
+fn record_curve<D: curve::CurveDrv>(cfg: &str, seed: u64, n: usize, profile: &str, out: &str) -> util::Report {
+    let mut f = std::io::BufWriter::new(std::fs::File::create(out).expect("create trace file"));
+    curve::record::<D>(cfg, seed, n, profile, &mut f)
+}
 fn replay_bigint<const N: usize>() -> util::Report {
     let stdin = std::io::stdin();
     bigint::replay::<N>(util::tlc_transitions(BufReader::new(stdin.lock())))
@@ -56,7 +65,15 @@ fn main() {
     let rep = match (cmd, machine) {
         ("replay", "field") if !big => with_toy_field!(cfg.as_str(), replay_field(big)),
         ("replay", "field") => with_big_field!(cfg.as_str(), replay_field(big)),
+        ("replay", "curve") if !big => with_toy_curve!(cfg.as_str(), replay_curve(big)),
         ("replay", "bigint") => { let nl: usize = cfg.parse().expect("--cfg <limbs>"); with_limbs!(nl, replay_bigint()) }
+        ("record", "curve") => {
+            let seed: u64 = arg(&args, "--seed").and_then(|s| s.parse().ok()).unwrap_or(1);
+            let n: usize = arg(&args, "--n").and_then(|s| s.parse().ok()).unwrap_or(1000);
+            let out = arg(&args, "--out").expect("--out");
+            let profile = arg(&args, "--profile").unwrap_or_else(|| "group".to_string());
+            with_big_curve!(cfg.as_str(), record_curve(cfg.as_str(), seed, n, profile.as_str(), out.as_str()))
+        }
         ("record", "bigint") => {
             let nl: usize = cfg.parse().expect("--cfg <limbs>");
             let seed: u64 = arg(&args, "--seed").and_then(|s| s.parse().ok()).unwrap_or(1);
